@@ -39,6 +39,25 @@ int verif_thrown, verif_throw_type, verif_throw_code;
 #define VERIF_CANARY(tag) ((void)0)
 #endif
 
+/* harness input convention: VERIF_INPUT(x) gives the already-declared object x (scalar or struct; wrap arrays in a
+ * single-member struct) an arbitrary value under cbmc and loads it from the replay file in the native build */
+#ifndef VERIF_NATIVE
+/* no do-while here: a loop in the harness makes legacy --apply-loop-contracts inline the callee into the harness,
+ * which silently bypasses --enforce-contract (probed) */
+#define VERIF_INPUT(x) { __typeof__(x) verif_nd_; (x) = verif_nd_; }
+#define VERIF_ASSUME(c) __CPROVER_assume(c)
+#define VERIF_ASSERT(c, msg) __CPROVER_assert((c), msg)
+#else
+void verif_native_load(const char *name, void *p, size_t n);
+void verif_native_assume_failed(const char *c);
+void verif_native_assert_failed(const char *msg);
+#define VERIF_INPUT(x) verif_native_load(#x, &(x), sizeof(x))
+#define VERIF_ASSUME(c) { if (!(c)) verif_native_assume_failed(#c); }
+#define VERIF_ASSERT(c, msg) { if (!(c)) verif_native_assert_failed(msg); }
+#define __CPROVER_assume(c) VERIF_ASSUME(c)
+#define __CPROVER_assert(c, msg) VERIF_ASSERT(c, msg)
+#endif
+
 #ifdef VERIF_NATIVE
 /* native (gcc) build of the same text for the differential / replay drivers: contracts vanish */
 #define __CPROVER_requires(x)
